@@ -18,3 +18,12 @@ impl DeserializeOwned for HintFileEntry {
 impl DefaultSpec for LogStatistics {
     open spec fn default_spec() -> Self { LogStatistics { live_keys: 0, dead_keys: 0, dead_bytes: 0 } }
 }
+
+/// TARC, the one place where it is used as a fact: a Reader handed out by the Handle's pool holds an Arc of the SAME Context as the
+/// Handle's Writer (Bitcask::open builds all of them from clones of one Arc), so it sees the key directory the Writer last
+/// published.  Under R-arc the three copies are separate values, so this cannot be derived and is assumed.
+#[verifier::external_body]
+proof fn axiom_arc_shared_context(h: &Handle, r: &Reader)
+    requires h.readers.issued(*r)
+    ensures r.ctx.keydir@ == h.writer@.ctx.keydir@
+{}
